@@ -7,6 +7,18 @@ import os
 VERIF = os.path.dirname(os.path.dirname(os.path.abspath(__file__)))
 
 CHECKS = {
+    "C02": dict(
+        technique="runtime monitor: reference-model oracle (independent pure-Python ciphers and modes; model mode logic composed over the library's single-block ECB for bulk sizes; optional openssl CLI) over key/nonce/parameter/length grids",
+        text=("Library ciphertexts and tags are compared byte for byte with ref/ciphers.py + ref/modes.py: single-block ECB of every cipher for every legal key size (AES with "
+              "and without AES-NI, 3DES parity/degenerate-key rules, ARC2 effective_keylen) on structured and random blocks; every mode each cipher offers with boundary lengths "
+              "(0, 1, block+-1, 8 blocks+-1, 64+-1) on the model path and 1 KiB..4 MiB by composition (the model's mode logic over the library's single-block ECB: a different "
+              "code path from the library's mode code and raw_*.c); CFB every segment size, CTR every nonce length / Counter.new layout / endianness / initial values near wrap, "
+              "GCM nonce 1..255 and mac_len 4..16, CCM nonce 7..13 x mac_len x declared/undeclared lengths x 2- and 6-byte AAD headers, EAX over six ciphers, SIV 32/48/64-byte "
+              "keys with 0..4 components, OCB nonce 1..15 x mac_len 8..16, ChaCha20-Poly1305 8/12/24, KW/KWP, ARC4 with drop, Salsa20, ChaCha20/XChaCha20 with seek.  Decrypt "
+              "must invert, and when the library chose the nonce/IV the model must decrypt with the exposed attribute.  ~60 classes of illegal parameters must raise ValueError/"
+              "TypeError."),
+        note="Trusted: ref/ciphers.py and ref/modes.py self-tests (FIPS/RFC/NIST vectors, Wycheproof by the model alone); openssl CLI optional. Sizes up to 4 MiB; limits at 2^32 blocks belong to C11.",
+        ref="DESIGN.md §4 C02"),
     "C03": dict(
         technique="runtime monitor: reference-model oracle (hashlib + independent pure-Python MD2/MD4/RIPEMD/Keccak/SP 800-185/RFC 9861 models, stdlib hmac, reference CMAC/Poly1305) plus acceptance oracle for every MAC",
         text=("Every digest/XOF output/MAC the library returns is compared with the standard's value computed by hashlib and/or ref/hashes.py (both where both exist; oracle "
@@ -19,6 +31,17 @@ CHECKS = {
               "reject with ValueError."),
         note="Trusted: hashlib (OpenSSL) and ref/hashes.py self-tests (RFC/NIST vectors); MD5/SHA-1/SHA-2/BLAKE2 have hashlib as the only oracle. Messages up to 2 MiB; bit-length counter carries beyond 2^32 bits are not reached.",
         ref="DESIGN.md §4 C03"),
+    "C07": dict(
+        technique="runtime monitor: reference-model oracle (independent EME-OAEP / EME-PKCS1-v1_5 encode+decode) with chosen encoded messages pushed through the real decryption path (c = EM^e mod n) and entropy tapes for encryption",
+        text=("Round trip for every message length 0..max (max+1 refused) on 1024..1031-, 1040-, 1536-bit and tiny (81..768-bit) moduli with e in {3,17,65537}, four hashes, "
+              "labels, three MGFs; encryption under an entropy tape must equal the model byte for byte (OAEP seed, v1.5 PS = non-zero tape bytes).  Because the monitor owns the "
+              "key it makes decrypt() see ANY encoded message: v1.5 first zero at every position and absent, prefixes 00/01/FF x 00..03, PS of 7/8/9 bytes, zeros in PS, crossed "
+              "with 11 sentinel classes (bytes of length 0..k+1, bytearray, None, int, str, a fresh object checked by identity) and 8 expected_pt_len classes; OAEP DB with 01 at "
+              "every position, each lHash byte class wrong, non-zero PS, missing 01, Y != 0; the outcome must be exactly the model's (message vs sentinel identity vs ValueError). "
+              "The C decoders are additionally swept through their wrappers: all 49152 zero/non-zero patterns of a 14-byte EM and a 3^9 OAEP sweep.  Wrong-length and >= n "
+              "ciphertexts must raise ValueError."),
+        note="Trusted: ref/rsa.py (RFC 8017 vectors). Patterns, not all 2^(8k) encoded messages; constant-time behaviour is not observable here.",
+        ref="DESIGN.md §4 C07"),
     "C08": dict(
         technique="runtime monitor: reference-model oracle (independent key-file parser/encoder + strict DER reader) over the full export matrix, wrong-passphrase and equality truth-table checks",
         text=("Every cell of the export matrix - RSA {PEM, DER, OpenSSH} x pkcs {1, 8} x {clear, legacy PEM, all 84 PBES2 strings incl. scrypt and AES-GCM} x prot_params, DSA "
@@ -32,6 +55,17 @@ CHECKS = {
               "int/None/str/bytes/object) must hold and never raise."),
         note="Trusted: ref/keyfiles.py and ref/der.py (self-tested against 38 OpenSSL/OpenSSH-generated files), ref.ciphers/ref.modes, hashlib PBKDF2/scrypt. Documented export refusals are counted, not judged. Keys <= 2048 bits.",
         ref="DESIGN.md §4 C08"),
+    "C09": dict(
+        technique="runtime monitor: metamorphic oracle (canonical one-call/bytes/returned result vs the same logical operation under other partitions, buffer types, output placements; byte snapshots and canaries around every buffer)",
+        text=("For 129 object kinds (6 block ciphers x ECB/CBC/CFB-s/OFB/CTR/OPENPGP, GCM, CCM declared/undeclared, EAX, OCB, SIV, ChaCha20-Poly1305, ChaCha20/XChaCha20 with "
+              "seek, Salsa20, ARC4, 23 hashes, 7 XOFs, TupleHash, HMAC, CMAC, Poly1305, keyed BLAKE2, KMAC, strxor) the canonical result is computed by the library and the same "
+              "logical operation is re-run under presentations: exhaustive 1-, 2- and 3-cut partitions of a 3-block+2 message (AAD, message and XOF reads independently), "
+              "single-byte drizzle, empty segments at every position, cuts around 8 cipher blocks / 2 hash blocks / the 8192-byte K12 chunk, random partitions of 1-64 KiB; "
+              "bytes / bytearray / memoryview of each / read-only view / unaligned slice with canaries / guard-page views per segment and per documented constructor parameter; "
+              "returned, output=bytearray, output=memoryview at odd offset, guard-page output, in place (same object, or distinct object over the same memory).  Every mutable "
+              "buffer is scribbled by the caller after the call (exposes kept references) and every non-output buffer is compared with its snapshot."),
+        note="Trusted: nothing beyond equality with the library's own canonical result (tied to the standards by C02/C03). Only documented buffer types are driven; partial overlap of input and output is outside the statement.",
+        ref="DESIGN.md §4 C09"),
     "C11": dict(
         technique="runtime monitor: state recovery from outputs (ECB-decrypting CTR keystream to recover counter blocks; ChaCha20 keystream vs model at the history-implied position; captured HPKE nonces) over limit-crossing call histories",
         text=("CTR keystream (encrypt of zeros) of every block cipher is ECB-decrypted block by block to recover the counter block that produced it: prefix/suffix "
